@@ -159,6 +159,20 @@ class _Run:
             return SymObj("PSDMatrix", label="lmi", matrix=it.ev(arg), name=None)
         if isinstance(f, ast.Name) and nm == "isinstance" and len(node.args) == 2:
             return NotImplemented
+        if isinstance(f, ast.Attribute) and isinstance(f.value, ast.Name) and f.value.id not in it.env and it.home is not None and it.home[1] is not None:
+            # <Class>.<method>(...): a method of another class of the package called through the class (a condition borrowed from a sibling family)
+            from ..model import ClassInfo
+            r0 = self.repo.resolve_name(it.home[1], f.value.id)
+            if isinstance(r0, ClassInfo):
+                m = r0.find_method(nm)
+                if m is not None:
+                    args = it.call_args(node)
+                    kws = {k.arg: it.ev(k.value) for k in node.keywords if k.arg}
+                    static = any(isinstance(d0, ast.Name) and d0.id == "staticmethod" for d0 in m.decorator_list)
+                    if static:
+                        return self.call_function(m, None, args, kws, it, node)
+                    if args:
+                        return self.call_function(m, args[0], args[1:], kws, it, node)
         if isinstance(f, ast.Attribute):
             if nm == "DataFrame":
                 kw = {k.arg: it.ev(k.value) for k in node.keywords if k.arg}
@@ -386,6 +400,98 @@ def family_configs(repo, cls, entries):
     return [dict(c) for c in itertools.product(*axes)] if axes else [{}]
 
 
+def _adjoint(repo):
+    return SymObj("Function", label="self.T", _cls=repo.cls("Function"), is_function=True, name=None, counter=8,
+                  list_of_points=_samples("uvh", 2), list_of_stationary_points=[], list_of_class_constraints=[], list_of_class_psd=[],
+                  tables_of_constraints={})
+
+
+def _construct(repo, cls, cfg, me):
+    """The constructors of the class (its own and those of the families it derives from) unrolled with symbolic parameters: whatever attribute they
+    compute from the parameters (a stored 1 / L, a parent's parameter set to -rho) is on the model.  -> False when outside the fragment."""
+    base = repo.cls("Function")
+    saved = dict(me.attrs)
+
+    def run_init(c, args, kws, depth=0):
+        init = c.methods.get("__init__")
+        if init is None:
+            for b0 in c.bases:
+                if b0 is not base:
+                    return run_init(b0, args, kws, depth + 1)
+            return
+        ps = params_of(init)[1:]
+        a = init.args
+        defaults = dict(zip(ps[len(ps) - len(a.defaults):], a.defaults))
+        env = {params_of(init)[0]: me, "Function.counter": 9, "np.inf": INF, "Expression": ("type", "Expression"), "Point": ("type", "Point"),
+               "int": ("type", "int"), "float": ("type", "float"), "list": ("type", "list")}
+        it = _Interp(env, on_call=None)
+        it.symbolic_truth = False
+        for k0, p0 in enumerate(ps):
+            if k0 < len(args):
+                env[p0] = args[k0]
+            elif p0 in kws:
+                env[p0] = kws[p0]
+            elif depth == 0 and p0 in ("is_leaf", "decomposition_dict", "reuse_gradient", "name"):
+                env[p0] = {"is_leaf": True, "decomposition_dict": None, "name": None}.get(p0, it.ev(defaults[p0]) if p0 in defaults else False)
+            elif depth == 0 and p0 in cfg and cfg[p0] is False:
+                env[p0] = INF
+            elif depth == 0 and p0 in cfg and cfg[p0] is None:
+                env[p0] = None
+            elif depth == 0 and p0 in cfg and cfg[p0] == "given":
+                env[p0] = VecObj("Point", PointV.atom(p0), name=None)
+            elif depth == 0 and p0 == "partition":
+                env[p0] = SymObj("BlockPartition", label="partition", _cls=repo.cls("BlockPartition"))
+            elif depth == 0 and p0 == "L" and cls.name.startswith("Block"):
+                env[p0] = [Rat.sym("L_k"), Rat.sym("L_k")]
+            elif depth == 0:
+                env[p0] = Rat.sym(p0)
+            elif p0 in defaults:
+                env[p0] = it.ev(defaults[p0])
+            else:
+                raise AnalysisError("constructor argument %s" % p0)
+        it.env = env
+
+        def on_call(node, it0):
+            nm = call_name(node)
+            f = node.func
+            if isinstance(f, ast.Attribute) and nm == "__init__" and isinstance(f.value, ast.Call) and call_name(f.value) == "super":
+                kw = {k.arg: it0.ev(k.value) for k in node.keywords if k.arg}
+                for b0 in c.bases:
+                    if b0 is base:
+                        if "reuse_gradient" in kw:
+                            me.attrs["reuse_gradient"] = kw["reuse_gradient"]
+                        return None
+                    return run_init(b0, it0.call_args(node), kw, depth + 1)
+                return None
+            if isinstance(f, ast.Name) and nm == "Function":
+                return _adjoint(repo)
+            if isinstance(f, ast.Name) and nm == "isinstance":
+                return True
+            if isinstance(f, ast.Name) and nm in ("print",):
+                return None
+            if isinstance(f, ast.Attribute) and dotted(f.value) == params_of(init)[0] and nm in ("stationary_point", "fixed_point"):
+                x = VecObj("Point", PointV.atom("xs"), name=None)
+                fx = VecObj("Expression", ExprV.atom("fs"), name=None)
+                s0 = (x, VecObj("Point", PointV(), name=None), fx)
+                me.attrs["list_of_points"].insert(0, s0)
+                me.attrs["list_of_stationary_points"].append(s0)
+                me.attrs["__born_with_stationary"] = True
+                return x
+            if isinstance(f, ast.Attribute) and nm in ("warn",):
+                return None
+            return NotImplemented
+        it.on_call = on_call
+        it.home = (repo, init._module, c.name)
+        it.run(init.body)
+    try:
+        run_init(cls, [], {})
+        return True
+    except (AnalysisError, SortError):
+        me.attrs.clear()
+        me.attrs.update(saved)
+        return False
+
+
 def run_family(repo, cls, spec, entries, cfg):
     """-> (emitted scalar ConsV list, emitted LMIs, expected scalar list, expected LMIs, model)"""
     hook = cls.find_method(K.HOOK)
@@ -395,14 +501,19 @@ def run_family(repo, cls, spec, entries, cfg):
                 list_of_constraints=[], list_of_psd=[], tables_of_constraints={})
     me.attrs["decomposition_dict"] = {me: 1}
     guards_true = {}
-    init = cls.methods.get("__init__")
+    constructed = _construct(repo, cls, cfg, me)
+    if constructed:
+        for a0, v0 in cfg.items():          # attributes that are not constructor parameters (set later through a method): the configuration decides
+            if a0 != "__stationary" and not any(a0 == p0 for _a, p0 in _params_of_class(repo, cls)):
+                me.attrs[a0] = VecObj("Point", PointV.atom(a0), name=None) if v0 == "given" else (None if v0 is None else (INF if v0 is False else me.attrs.get(a0, Rat.sym(a0))))
+    init = cls.methods.get("__init__") if not constructed else None
     if init is not None:
         for s0 in ast.walk(init):
             if isinstance(s0, ast.Assign) and len(s0.targets) == 1 and isinstance(s0.targets[0], ast.Attribute) and dotted(s0.targets[0].value) == "self" \
                     and isinstance(s0.value, ast.Constant) and s0.targets[0].attr not in me.attrs:
                 a0 = s0.targets[0].attr
                 me.attrs[a0] = VecObj("Point", PointV.atom(a0), name=None) if cfg.get(a0) == "given" else s0.value.value
-    for attr, pname in _params_of_class(repo, cls):
+    for attr, pname in ([] if constructed else _params_of_class(repo, cls)):
         if attr in me.attrs:
             continue
         if attr in cfg and cfg[attr] is False:
@@ -422,19 +533,22 @@ def run_family(repo, cls, spec, entries, cfg):
             continue
         guards_true["self.%s != np.inf" % k0] = v0 is True
         guards_true["self.%s is not None" % k0] = v0 == "given"
-    if cfg.get("__stationary"):
+    if cfg.get("__stationary") and not me.attrs.get("__born_with_stationary"):
         s = (VecObj("Point", PointV.atom("xs"), name=None), VecObj("Point", PointV(), name=None), VecObj("Expression", ExprV.atom("fs"), name=None))
         me.attrs["list_of_points"].insert(0, s)
         me.attrs["list_of_stationary_points"].append(s)
     # an adjoint (LinearOperator): another function object with samples of its own, whose hook is empty
-    if any(isinstance(n0, ast.Attribute) and n0.attr == "T" and dotted(n0.value) == "self" for n0 in ast.walk(hook)):
+    if "T" not in me.attrs and any(isinstance(n0, ast.Attribute) and n0.attr == "T" and dotted(n0.value) == "self" for n0 in ast.walk(hook)):
         me.attrs["T"] = SymObj("Function", label="self.T", _cls=repo.cls("Function"), is_function=True, name=None, counter=8,
                                list_of_points=_samples("uvh", 2), list_of_stationary_points=[], list_of_class_constraints=[], list_of_class_psd=[],
                                tables_of_constraints={})
     run = _Run(repo, cls, cfg)
     run.created_stationary = False
     env = {params_of(hook)[0]: me, "Expression": ("type", "Expression"), "Point": ("type", "Point"), "tuple": ("type", "tuple"), "int": ("type", "int"),
-           "float": ("type", "float"), "list": ("type", "list"), "str": ("type", "str"), "Function.counter": 9, "Point.counter": 12, "Expression.counter": 14}
+           "float": ("type", "float"), "list": ("type", "list"), "str": ("type", "str"), "Function.counter": 9, "Point.counter": 12, "Expression.counter": 14,
+           # the module-level null objects of the DSL
+           "null_point": VecObj("Point", PointV(), name=None, shared="the module-level null point"),
+           "null_expression": VecObj("Expression", ExprV(), name=None, shared="the module-level null expression")}
     it = _Interp(env, on_call=run.on_call)
     it.home = (repo, hook._module, cls.name)
     it.run(hook.body)
